@@ -1,10 +1,14 @@
 #!/bin/bash
 # usage: confirm_seed.sh <worktree>   -- demo must FAIL with the change and PASS without it
+# (no `git stash`: the stash is shared by all worktrees of a repository)
 wt=$1
 cd $wt || exit 2
-PYTHONPATH=$wt /venv/bin/python SEED/demo.py >/tmp/seed_demo_with.txt 2>&1; with=$?
-git stash -q -- pyanalyze
-PYTHONPATH=$wt /venv/bin/python SEED/demo.py >/tmp/seed_demo_without.txt 2>&1; without=$?
-git stash pop -q
+tag=$(basename $wt)
+PYTHONPATH=$wt /venv/bin/python SEED/demo.py >/tmp/seed_demo_with_$tag.txt 2>&1; with=$?
+git diff -- pyanalyze > /tmp/seed_patch_$tag.diff
+git apply -R /tmp/seed_patch_$tag.diff
+PYTHONPATH=$wt /venv/bin/python SEED/demo.py >/tmp/seed_demo_without_$tag.txt 2>&1; without=$?
+git apply /tmp/seed_patch_$tag.diff
 echo "with-change exit=$with (want 1)  without-change exit=$without (want 0)"
-tail -2 /tmp/seed_demo_with.txt
+tail -2 /tmp/seed_demo_with_$tag.txt
+rm -f /tmp/seed_patch_$tag.diff
